@@ -24,16 +24,19 @@ PROP = {
              "(8x40x2 KiB, 4x60x512 B; thorough also 8x150x16 KiB, 8x100x8 KiB, 3x300x64 B). (f) Connection layer over wall-clock time: "
              "the unmodified NewConnection (ping goroutine, reader, reconnect) against the reference server on its own listener, in "
              "child processes that overlap the other cases (75 s watchdog, a hang is a reported failure): steady traffic for "
-             "12.6..13.5 s on ONE session (gaps 250..750 ms, thorough also up to 6 s; pings answered; unknown pongs interspersed); and "
+             "12.6..13.5 s on ONE session (gaps 250..750 ms, thorough also up to 6 s; pings answered; unknown pongs interspersed; every "
+             "session also carries payloads around the reader's own-packet filter: pong magic with 3,4,5,8,11,12,13,16,20,76 bytes, ping "
+             "magic, a TL answer magic, auth-nonce magic, payloads of 0,1,3 bytes); Status() and AverageRoundTrip() > 0 at the end; and "
              "histories drop -> reconnect -> traffic ('close: server closes the socket and a later write of the application fails; "
              "'silence: server stops sending and answering pings until the client gives up after 10 s), 3..5 sessions, the application "
              "reading the channel it took ONCE from Responses() and sending marked packets on every session; number of handshakes, "
              "payloads received on that channel and marked packets decoded per session are compared with the model of "
-             "Connection.reader / reconnect. Oracles on the implementation: valid frames delivered intact, altered frames "
+             "Connection.reader / reconnect. (g) Packet.MagicType on payloads of 0..6 bytes and known magics. Oracles on the implementation: valid frames delivered intact, altered frames "
              "never delivered, truncation ends in EOF, receive loop delivers exactly the intact prefix, both session directions "
              "in order and intact, reference server completes the handshake, concurrent senders: the server decodes exactly N*K intact frames, per "
              "sender in order, encrypt and write calls alternate strictly, wall-clock histories: exactly the scheduled sessions, every packet of every "
-             "session received in order on the one channel, every marked packet decoded, 8 MiB-64 round-trips and 8 MiB-63 is rejected "
+             "session received in order on the one channel (only the 12-byte tcp.pong and auth nonces are consumed), every marked packet "
+             "decoded, Send leaves the caller's payload buffer unchanged, 8 MiB-64 round-trips and 8 MiB-63 is rejected "
              "(thorough). A class is (stream, segmentation / position / length bucket, size bucket, outcome)."),
     'explanation': ("coq/Properties/C11.v, for every hash with 32-byte output, every deterministic keystream generator and every key "
                     "agreement with dh a (pub b) = dh b (pub a): the specification server accepts the client's handshake, recovers the "
@@ -47,7 +50,8 @@ PROP = {
                     "unlocks before encrypt/write is refuted by a two-sender witness; a session's reader keeps running and delivers every "
                     "data packet for as long as no gap between arrivals reaches reconnectTimeout and the transport reports no error "
                     "(nothing else ends a session), and whatever any session's reader delivers reaches the channel returned once by "
-                    "Responses(); the single-timer reader and the channel-per-handshake designs are refuted in Proofs/AdnlHistory.v. "
+                    "Responses(); a payload that starts with the pong magic is consumed iff it has exactly 12 bytes; the single-timer reader, the "
+                    "channel-per-handshake and the pong-prefix (len >= 12) designs are refuted in Proofs/AdnlHistory.v. "
                     "coq/Properties/C11_gen.v re-checks params offsets 0/32/64/80/96/160, the key-id tag, the ParsePacket bounds and "
                     "operators, marshal/parse/handshake slice bounds and the cipher wiring translated from today's source."),
     'assumptions': ["SHA-256, AES-CTR and X25519 are parameters of the theorems (Section variables); corruption detection is reduced to an exhibited SHA-256 coincidence, not excluded",
